@@ -146,7 +146,69 @@ where
     ctx.count("suites", 1);
 }
 
+/// A diagram with more than 100 000 nodes: `node_count()` against an independent traversal
+/// (node sets are backend specific: bit sets per index range / per memory page).
+fn large_kind<K: BoolKind>(ctx: &mut Ctx)
+where
+    for<'id> MgrOf<'id, K>: HasWorkers,
+    for<'x> INodeOfFunc<'x, K::F>: HasLevel,
+{
+    use oxidd::{Edge, Function, InnerNode, Manager, Node};
+    let k = 16u32;
+    let n = 2 * k;
+    let mref = K::new_manager(1 << 21, 1 << 16, 2);
+    mref.with_manager_exclusive(|m| {
+        m.add_vars(n);
+    });
+    let parts: Vec<K::F> = mref.with_manager_shared(|m| {
+        let mut f = K::F::f(m);
+        let mut v = Vec::new();
+        for i in 0..k {
+            let c = K::F::var(m, i).unwrap().and(&K::F::var(m, i + k).unwrap()).unwrap();
+            f = f.or(&c).unwrap();
+            v.push(f.clone());
+        }
+        v
+    });
+    let mut acc = 0x1a46e_u64;
+    for (i, f) in parts.iter().enumerate() {
+        let got = f.node_count();
+        let want = f.with_manager_shared(|m, e| {
+            let mut seen = std::collections::HashSet::new();
+            let mut stack = vec![m.clone_edge(e)];
+            let mut count = 0usize;
+            while let Some(e) = stack.pop() {
+                if seen.insert(e.node_id()) {
+                    count += 1;
+                    if let Node::Inner(node) = m.get_node(&e) {
+                        for c in node.children() {
+                            stack.push(m.clone_edge(&c));
+                        }
+                    }
+                }
+                m.drop_edge(e);
+            }
+            count
+        });
+        ctx.eval();
+        if got != want {
+            ctx.violation(&format!("{}:large:node_count-differs-from-traversal", K::NAME), format!("partial {} of OR_i(x_i & x_(i+16)): node_count() = {got}, traversal finds {want}", i + 1));
+        }
+        acc = mix(acc, got as u64);
+        ctx.count_max("max_large_node_count", got as u64);
+    }
+    emit(&format!("large:{}", K::NAME), acc);
+    ctx.distinct((K::NAME, "large"));
+    ctx.count("large_diagrams", 1);
+}
+
 pub fn digest(ctx: &mut Ctx) {
+    match ctx.shard {
+        0 => large_kind::<Bdd>(ctx),
+        1 => large_kind::<Bcdd>(ctx),
+        2 => large_kind::<Zbdd>(ctx),
+        _ => {}
+    }
     let count = ctx.by_tier(24, 240);
     let steps = ctx.by_tier(200, 500);
     histories_kind::<Bdd>(ctx, count, steps);
